@@ -588,7 +588,8 @@ def generic_replay(path, harnesses):
     """./check <ID> --replay <file>: re-run a stored counterexample against the natively compiled real code"""
     d = json.load(open(path)); work = Work(d['property'] + '_replay')
     hs = [h for h in harnesses if h.name == d['harness']]
-    if not hs: print('unknown harness %s' % d['harness']); return 2
+    if not hs:
+        hs = [AHarness(d['harness'], d['src'], d['entry'], defs=tuple(d.get('defs', ())))]
     h = hs[0]; words = [int(w, 16) for w in d.get('nondet_words', [])]
     verdict, out = native_replay(work, h, words); work.clean()
     print('replay of %s on the real code: %s\n%s' % (d['harness'], verdict, out[-500:]))
